@@ -1,10 +1,14 @@
 #!/bin/bash
-# setup_cmd: offline; make sure hypothesis is importable in /venv, build atomman's extensions, self-test the runner.
+# setup_cmd: offline; make sure hypothesis is importable in /venv, atheris in /verif/.deps (optional), build atomman's extensions.
 set -e
 cd "$(dirname "$0")"
 export PIP_NO_INDEX=1
 if ! /venv/bin/python -c "import hypothesis" 2>/dev/null; then
   /venv/bin/pip install --no-index --find-links /opt/veriftools/wheels hypothesis
+fi
+# atheris is only used by the thorough/quick fuzz clause of C09; its absence is recorded in the evidence, never an error
+if ! PYTHONPATH=/verif/.deps /venv/bin/python -c "import atheris" 2>/dev/null; then
+  /venv/bin/pip install --no-index --find-links /opt/veriftools/wheels --target /verif/.deps atheris >/dev/null 2>&1 || echo "note: atheris not installable; C09 falls back to Hypothesis only"
 fi
 /venv/bin/python -m pbt.build
 /venv/bin/python -c "import sys; sys.path.insert(0,'/repo'); import atomman, hypothesis; print('atomman', atomman.__version__, 'hypothesis', hypothesis.__version__)" 2>/dev/null
